@@ -235,10 +235,12 @@ func checkC16(c *Ctx, r *Report) {
 	r.rule("C16.R3", "every scanning loop makes progress", 3)
 	r.rule("C16.R4", "primitive parser errors are tested on their own result", 4)
 	r.rule("C16.R6", "the tag a member is matched against is the declared tag number in full width (a narrowed number makes the decoder accept an element with another tag instead of reporting it; shared with C04.R11)", 1)
+	r.rule("C16.R7", "the tag number a member is matched against comes from its `tagNum:` parameter only: every assignment of fieldParameters.tagNumber in the tag parser lies behind the test for that prefix", 1)
 	r.rule("C16.R5", "reflect Set in the special-type cases is type-correct", 3)
 
 	posts := c16Posts(c, r, "C16.R1")
 	checkParseWidths(c, r, "C16.R6", c.fn("cdr/asn", "parseFieldParameters"))
+	c16TagNumberWriters(c, r, "C16.R7")
 	// the decode path: the package functions reachable from the entry points that take the input octets
 	for _, name := range []string{"parseTagAndLength", "parseBitString", "parseInt64", "ParseField", "UnmarshalWithParams", "Unmarshal"} {
 		c.fn("cdr/asn", name) // anchors
@@ -704,7 +706,12 @@ func signExtends(f *ssa.Function, depth int) (bool, string) {
 			if ex, ok := lf.(*ssa.Extract); ok && ex.Index == 0 {
 				if call, ok := ex.Tuple.(*ssa.Call); ok {
 					if okc, _ := shiftOrAccumulation(call.Call.StaticCallee()); okc {
-						continue // the unchanged unsigned value on the path that does not need extension (e.g. empty contents)
+						// the unchanged unsigned value: only where there is nothing to extend - the
+						// contents are empty or the parse failed
+						if why := unextendedOnlyWhenEmpty(ri.At); why != "" {
+							return false, why
+						}
+						continue
 					}
 				}
 			}
@@ -806,4 +813,135 @@ func hasByteSliceParam(f *ssa.Function) bool {
 		}
 	}
 	return false
+}
+
+// unextendedOnlyWhenEmpty: every edge into the block that returns the unsigned value is taken
+// only with an error or with empty contents (len == 0).  "" when so.
+func unextendedOnlyWhenEmpty(b *ssa.BasicBlock) string {
+	for _, p := range b.Preds {
+		if len(p.Instrs) == 0 || len(p.Succs) != 2 {
+			if len(p.Succs) == 1 {
+				// a plain jump: look one block up
+				if w := unextendedOnlyWhenEmpty(p); w != "" {
+					return w
+				}
+				continue
+			}
+			return "the unsigned value is returned on a path whose condition is not understood"
+		}
+		iff, ok := p.Instrs[len(p.Instrs)-1].(*ssa.If)
+		if !ok {
+			return "the unsigned value is returned on a path whose condition is not understood"
+		}
+		taken := p.Succs[0] == b // the condition holds on this edge
+		bo, ok := iff.Cond.(*ssa.BinOp)
+		if !ok {
+			return "the unsigned value is returned on a path whose condition is not understood"
+		}
+		// error test
+		if isNilConst(bo.Y) || isNilConst(bo.X) {
+			if (bo.Op == token.NEQ && taken) || (bo.Op == token.EQL && !taken) {
+				continue
+			}
+			return "the unsigned value is returned on the path without error and without a test of the length"
+		}
+		// length test: which lengths reach this edge?
+		lenCall := func(v ssa.Value) bool {
+			call, ok := stripConv(v).(*ssa.Call)
+			if !ok {
+				return false
+			}
+			bi, ok := call.Call.Value.(*ssa.Builtin)
+			return ok && bi.Name() == "len"
+		}
+		k, isK := constInt(bo.Y)
+		if !isK || !lenCall(bo.X) {
+			return "the unsigned value is returned on a path whose condition is not a test of the contents length"
+		}
+		holds := func(n int64) bool {
+			var v bool
+			switch bo.Op {
+			case token.EQL:
+				v = n == k
+			case token.NEQ:
+				v = n != k
+			case token.LSS:
+				v = n < k
+			case token.LEQ:
+				v = n <= k
+			case token.GTR:
+				v = n > k
+			case token.GEQ:
+				v = n >= k
+			}
+			return v == taken
+		}
+		for n := int64(1); n <= 7; n++ {
+			if holds(n) {
+				return fmt.Sprintf("contents of %d octet(s) are returned without sign extension (the guard in front of the extension lets them through): a negative value of that length decodes to a positive one, e.g. 0x80 to 128 instead of -128", n)
+			}
+		}
+	}
+	return ""
+}
+
+// c16TagNumberWriters (C16.R7 / C04.R13): who may write fieldParameters.tagNumber.
+func c16TagNumberWriters(c *Ctx, r *Report, rule string) {
+	f := c.fn("cdr/asn", "parseFieldParameters")
+	// edges on which the part is known to start with "tagNum:"
+	type edge struct{ from, to *ssa.BasicBlock }
+	var tagEdges []edge
+	for _, b := range f.Blocks {
+		if len(b.Instrs) == 0 || len(b.Succs) != 2 {
+			continue
+		}
+		iff, ok := b.Instrs[len(b.Instrs)-1].(*ssa.If)
+		if !ok {
+			continue
+		}
+		for d := range depSet(f, iff.Cond) {
+			call, ok := d.(*ssa.Call)
+			if !ok {
+				continue
+			}
+			obj := calleeObj(&call.Call)
+			if obj == nil || obj.Pkg() == nil || obj.Pkg().Path() != "strings" || (obj.Name() != "HasPrefix" && obj.Name() != "CutPrefix") || len(call.Call.Args) != 2 {
+				continue
+			}
+			if s, ok := constString(call.Call.Args[1]); ok && strings.HasPrefix(s, "tagNum") {
+				tagEdges = append(tagEdges, edge{b, b.Succs[0]})
+			}
+		}
+	}
+	n := 0
+	eachInstr(f, func(_ *ssa.BasicBlock, _ int, ins ssa.Instruction) {
+		st, ok := ins.(*ssa.Store)
+		if !ok {
+			return
+		}
+		// params.tagNumber = p   or   *params.tagNumber = v
+		isTag := false
+		if fa, ok := st.Addr.(*ssa.FieldAddr); ok && fieldName(fa) == "tagNumber" {
+			isTag = true
+		}
+		if ld, ok := st.Addr.(*ssa.UnOp); ok && ld.Op == token.MUL {
+			if fa, ok := ld.X.(*ssa.FieldAddr); ok && fieldName(fa) == "tagNumber" {
+				isTag = true
+			}
+		}
+		if !isTag {
+			return
+		}
+		n++
+		behind := false
+		for _, e := range tagEdges {
+			if e.from.Succs[0] != e.from.Succs[1] && edgeDominates(e.from, e.to, st.Block()) {
+				behind = true
+			}
+		}
+		r.check(behind, rule, fmt.Sprintf("%s|assignment of tagNumber #%d", fnKey(f), n), posOf(c, st), "behind the test for the tagNum: prefix", "fieldParameters.tagNumber is assigned outside the branch that handles the `tagNum:` parameter (another parameter - a default value, a size - is taken for the tag number): members without a declared tag are encoded with, and matched against, a number their type does not declare")
+	})
+	if n == 0 {
+		r.viol(rule, fnKey(f)+"|tagNumber", c.rel(f.Pos()), "the tag parser never assigns fieldParameters.tagNumber (anchor moved)")
+	}
 }
